@@ -84,6 +84,23 @@ def dec(v):
     return v if isinstance(v, int) else int(v[1:]) if isinstance(v, str) else v[0] if isinstance(v, tuple) else v.x
 
 
+class ReIterable:
+    """An iterable that is not an iterator (its __iter__ is a generator function): it may fail part-way."""
+
+    def __init__(self, make):
+        self.make = make
+
+    def __iter__(self):
+        return self.make()
+
+
+class BadCloseIter(PlainIter):
+    """An iterator (not a generator) that also has a close() method - which fails (a cursor used from the wrong thread)."""
+
+    def close(self):
+        raise ProducerBoom('close() failed')
+
+
 def deliverable(op):
     """Elements a submission must get delivered (those produced before its producer failed)."""
     if op['op'] == 'call':
@@ -194,9 +211,12 @@ def run(case, max_steps=120000):
                             yield E(v)
                         if f == len(p):
                             raise ProducerBoom(f)
-                    g = gen()
-                    w.keep.append(g)
-                    buf.map(g if kind == 'gen' else PlainIter(g))
+                    if kind == 'reiter':
+                        buf.map(ReIterable(gen))
+                    else:
+                        g = gen()
+                        w.keep.append(g)
+                        buf.map(g if kind == 'gen' else BadCloseIter(g) if kind == 'iter-badclose' else PlainIter(g))
             elif op['op'] == 'amap':
                 async def agen(p=list(op['xs']), f=op.get('fail_at'), d=d, op=op):
                     for i, v in enumerate(p):
